@@ -313,7 +313,8 @@ class C03(Check):
             "(l op1 m) op2 r and l op1 (m op2 r) over 11 kinds (quick: 9 kinds and + - * / ** // %; "
             "thorough: all 12x12 operator pairs); + - * programs over free non-commutative generators; "
             "ordering comparisons in both orders; call / subscript / attribute / comparison / "
-            "logical constructor methods; flattened_sum / flattened_product / linear_combination / "
+            "logical constructor methods, one- and three-element tuple subscripts, three-argument pow in "
+            "both operand roles (to be refused or to mean modular exponentiation); flattened_sum / flattened_product / linear_combination / "
             "quotient on all operand lists of length <= 3 (the caller's list must come back untouched and "
             "a second call with it, a tuple or an iterator must build the same tree); two-operator "
             "programs around 9 falsy or falsy-containing composite operands (0 // x, 0 % x, 0 / x, "
@@ -405,7 +406,7 @@ class C03(Check):
                     if other == "Rational":
                         continue
                     for m in ("eq", "ne", "lt", "le", "gt", "ge", "and_", "or_", "call1", "callkw",
-                              "index", "index2"):
+                              "index", "index2", "index1t", "index3", "pow3", "rpow3"):
                         yield ("meth", m, k, other)
                 for m in ("not_", "attr", "a.name", "call0"):
                     yield ("meth", m, k, "0")
@@ -528,6 +529,21 @@ class C03(Check):
             elif m == "index2":
                 tree = build(V("arr"))[e, o]
                 plainf = "index2"
+            elif m == "index1t":
+                tree = build(V("arr"))[o,] if other not in ("True", "False") else None
+                plainf = "index1t"
+            elif m == "index3":
+                tree = build(V("arr"))[e, o, e]
+                plainf = "index3"
+            elif m in ("pow3", "rpow3"):
+                # three-argument pow goes to __pow__ / __rpow__ with a modulus: to be refused, or
+                # to mean modular exponentiation
+                try:
+                    tree = pow(e, o, 7) if m == "pow3" else pow(o, e, 7)
+                except TypeError:
+                    r.count("refused")
+                    return r
+                plainf = (lambda a, b: pow(a, b, 7)) if m == "pow3" else (lambda a, b: pow(b, a, 7))
             elif m == "attr":
                 tree = build(V("obj")).attr("a")
                 plainf = "attr"
@@ -562,6 +578,10 @@ class C03(Check):
                     want = env["arr"][b]
                 elif plainf == "index2":
                     want = env["arr"][a, b]
+                elif plainf == "index1t":
+                    want = env["arr"][b,]
+                elif plainf == "index3":
+                    want = env["arr"][a, b, a]
                 elif plainf == "attr":
                     want = env["obj"].a
                 else:
